@@ -108,7 +108,7 @@ class World:
         self.returns.clear()
         exc = None
         try:
-            self.prot.datagram_received(data, SENDERS[sender], bool(multicast))
+            self.prot.datagram_received(data, SENDERS.get(sender, sender), bool(multicast))
         except Exception as e:  # noqa: BLE001
             exc = type(e).__name__
         self.loop.settle()
@@ -148,7 +148,7 @@ def judge(letter, detect, calls, returns, exc):
         out.append(dict(clause="no-exception", disc=exc, detail=f"datagram_received raised {exc}"))
         return out
     per = detect if isinstance(detect, tuple) else (detect,)
-    want = sorted((c, SENDERS[sender]) for c in ("announcer", "discovery", "subscriber")) * sum(per)
+    want = sorted((c, SENDERS.get(sender, sender)) for c in ("announcer", "discovery", "subscriber")) * sum(per)
     want.sort()
     detect = any(per)
     if sorted(calls) != want:
@@ -267,6 +267,18 @@ def check(ctx):
                             depth_completed=res.depth_completed, closure=res.closure,
                             frontier=res.frontier, levels=res.levels))
     _reset()
+    # many senders between two messages of one sender: what was recorded for it stays recorded
+    for nother in (16, 255, 256, 257, 300, 1000, 5000):
+        for chan in (0, 1):
+            word = [("P", chan, 1, 5)] + [((f"198.51.{i // 250}.{i % 250 + 1}", 30490), chan, 1, 1 + i % 7) for i in range(nother)] \
+                + [("P", chan, 1, 6)] + [((f"198.51.{100 + i // 250}.{i % 250 + 1}", 30490), 1 - chan, 1, 9) for i in range(nother // 4)] \
+                + [("P", chan, 1, 1)]
+            vs, _ = run_word(word)
+            transitions += len(word)
+            for v in vs[:3]:
+                viols.append(core.Violation(ctx.prop, v["clause"], v["disc"] + "-after-many-senders",
+                                            dict(search="many-senders", many=nother, channel=chan, with_entry=False),
+                                            detail=f"{nother} other senders in between: " + v["detail"]))
     # determinism: the deepest word of the last search twice
     word = samples.items[-1]["case"]["word"] if samples.items else []
     a = run_word(word)
@@ -296,6 +308,15 @@ def core_harness(msg):
 
 def replay(ctx, body):
     case = body["case"]
+    if "many" in case:
+        nother, chan = case["many"], case["channel"]
+        word = [("P", chan, 1, 5)] + [((f"198.51.{i // 250}.{i % 250 + 1}", 30490), chan, 1, 1 + i % 7) for i in range(nother)] \
+            + [("P", chan, 1, 6)] + [((f"198.51.{100 + i // 250}.{i % 250 + 1}", 30490), 1 - chan, 1, 9) for i in range(nother // 4)] \
+            + [("P", chan, 1, 1)]
+        v1, _ = run_word(word)
+        for v in v1:
+            print("FAILS:", v)
+        return 1 if v1 else 0
     word = [tuple(x) for x in case["word"]]
     v1, log = run_word(word, case.get("with_entry", False))
     v2, _ = run_word(word, case.get("with_entry", False))
